@@ -101,7 +101,11 @@ func modelOps(cs Case, tr trace) []map[string]interface{} {
 		if k < len(tr.quotas) {
 			q, st = tr.quotas[k], tr.sts[k]
 		}
-		ops[k] = modelOp(op, q, st, k < len(tr.steps) && tr.steps[k].Out.K == "err" && tr.steps[k].Out.E == "wire")
+		var sw [][]ItemJ
+		if k < len(tr.steps) {
+			sw = tr.steps[k].Out.Swarm
+		}
+		ops[k] = modelOp(op, q, st, k < len(tr.steps) && tr.steps[k].Out.K == "err" && tr.steps[k].Out.E == "wire", sw)
 	}
 	return ops
 }
@@ -242,6 +246,10 @@ func clientView(cs Case, tr trace, states []StateJ) []StateJ {
 		switch {
 		case op.Op == "heartbeat" && tr.steps[k].Out.K != "err":
 			table[op.I] = op.T
+		case op.Op == "swarm":
+			for _, i := range op.Insts {
+				table[i] = op.T
+			}
 		case op.Op == "cleanupTimeout":
 			for i, t := range table {
 				if op.Now > t+timeoutMs {
@@ -648,6 +656,11 @@ func main() {
 			}
 			if k8s {
 				origin += "k8s:"
+			}
+			if k%50 == 10 {
+				cs := genScale(c.Rng, consts.TimeoutMs, k%100 == 60, k%150 == 10)
+				runOne(c, cs, "scale:")
+				continue
 			}
 			if k%8 == 7 {
 				cs := genStorm(c.Rng, consts.TimeoutMs, k8s)
